@@ -101,7 +101,7 @@ func (g *gen) msgSkeleton(f *fileCtx, sc *scope, prefix string, parent *msgSym) 
 
 	// number space: extension ranges and reserved ranges first, fields avoid them
 	if f.syntax != "proto3" && !g.o.NoExtensions {
-		for k, n := 0, g.n(0, g.o.MaxRanges, "ext-ranges"); k < n; k++ {
+		g.repeat("ext-ranges", 0, g.o.MaxRanges, func(k int) {
 			if r, ok := g.drawRange(m, "xr"); ok {
 				m.taken = append(m.taken, r)
 				m.ranges = append(m.ranges, r)
@@ -123,16 +123,16 @@ func (g *gen) msgSkeleton(f *fileCtx, sc *scope, prefix string, parent *msgSym) 
 				xr.Options = xo
 				d.ExtensionRange = append(d.ExtensionRange, xr)
 			}
-		}
+		})
 	}
-	for k, n := 0, g.n(0, g.o.MaxRanges, "reserved-ranges"); k < n; k++ {
+	g.repeat("reserved-ranges", 0, g.o.MaxRanges, func(k int) {
 		if r, ok := g.drawRange(m, "rr"); ok {
 			m.taken = append(m.taken, r)
 			d.ReservedRange = append(d.ReservedRange, &descriptorpb.DescriptorProto_ReservedRange{Start: proto.Int32(r[0]), End: proto.Int32(r[1])})
 		}
-	}
+	})
 	if g.chance(6, "reserved-names") {
-		for k, n := 0, g.n(1, 3, "n"); k < n; k++ {
+		g.repeat("n", 1, 3, func(k int) {
 			rn := pick(g, []string{"old_field", "legacy", "removed_1", "tmp", "foo", "Bar"}, "reserved-name")
 			dup := false
 			for _, x := range d.ReservedName {
@@ -142,16 +142,16 @@ func (g *gen) msgSkeleton(f *fileCtx, sc *scope, prefix string, parent *msgSym) 
 				d.ReservedName = append(d.ReservedName, rn)
 				m.sc.take(rn) // nothing else in this message may use it (protoc: fields only; stricter is fine)
 			}
-		}
+		})
 	}
 
-	for k, n := 0, g.n(0, g.o.MaxEnums, "msg-enums"); k < n; k++ {
+	g.repeat("msg-enums", 0, g.o.MaxEnums, func(k int) {
 		d.EnumType = append(d.EnumType, g.enum(f, m.sc, m.full, m))
-	}
+	})
 	if m.depth+1 < g.o.MaxDepth {
-		for k, n := 0, g.n(0, 2, "nested-msgs"); k < n; k++ {
+		g.repeat("nested-msgs", 0, 2, func(k int) {
 			d.NestedType = append(d.NestedType, g.msgSkeleton(f, m.sc, m.full, m).dp)
-		}
+		})
 	}
 	return m
 }
@@ -241,11 +241,10 @@ type fieldCtx struct {
 func (g *gen) fillMessage(m *msgSym) {
 	f := m.file
 	fc := &fieldCtx{f: f, m: m, scope: m.sc, prefix: m.full, nested: &m.dp.NestedType}
-	nFields := g.n(0, g.o.MaxFields, "fields")
 	var synthetic []*fldp
-	for len(m.dp.Field) < nFields {
+	g.repeat("fields", 0, g.o.MaxFields, func(int) {
 		if m.next = g.allocNumber(m); m.next == 0 {
-			break
+			return // the whole number space is taken
 		}
 		if len(m.dp.OneofDecl) < g.o.MaxOneofs && g.chance(5, "oneof") {
 			// a real oneof: 1..3 consecutive members
@@ -265,17 +264,17 @@ func (g *gen) fillMessage(m *msgSym) {
 			m.dp.OneofDecl = append(m.dp.OneofDecl, od)
 			oc := *fc
 			oc.inOneof = true
-			for k, n := 0, g.n(1, 3, "members"); k < n; k++ {
+			g.repeat("members", 1, 3, func(k int) {
 				if m.next == 0 {
 					if m.next = g.allocNumber(m); m.next == 0 {
-						break
+						return
 					}
 				}
 				fd := g.field(&oc, shapeSingular)
 				fd.OneofIndex = proto.Int32(idx)
 				m.dp.Field = append(m.dp.Field, fd)
-			}
-			continue
+			})
+			return
 		}
 		shape := g.drawShape(fc)
 		fd := g.field(fc, shape)
@@ -283,7 +282,7 @@ func (g *gen) fillMessage(m *msgSym) {
 			synthetic = append(synthetic, fd)
 		}
 		m.dp.Field = append(m.dp.Field, fd)
-	}
+	})
 	// synthetic oneofs of proto3 optional fields come after all real oneofs, in field order
 	for _, fd := range synthetic {
 		oname := "_" + fd.GetName()
@@ -765,8 +764,7 @@ func (g *gen) extensions(f *fileCtx, m *msgSym) {
 		fc = &fieldCtx{f: f, m: m, scope: m.sc, prefix: m.full, nested: &m.dp.NestedType, isExt: true}
 		list = &m.dp.Extension
 	}
-	n := g.n(0, g.o.MaxExtensions, "extensions")
-	for k := 0; k < n; k++ {
+	g.repeat("extensions", 0, g.o.MaxExtensions, func(int) {
 		var extendee string
 		var num int32
 		if f.syntax == "proto3" {
@@ -779,7 +777,7 @@ func (g *gen) extensions(f *fileCtx, m *msgSym) {
 		e := pick(g, cands, "extendee")
 		var ok bool
 		if num, ok = g.extNumber(e); !ok {
-			continue
+			return
 		}
 		extendee = "." + e.full
 		sh := shapeSingular
@@ -790,7 +788,7 @@ func (g *gen) extensions(f *fileCtx, m *msgSym) {
 		x.Number = proto.Int32(num)
 		x.Extendee = proto.String(extendee)
 		*list = append(*list, x)
-	}
+	})
 }
 
 // ---------------------------------------------------------------------------------------------
@@ -802,7 +800,7 @@ func (g *gen) services(f *fileCtx) {
 		return
 	}
 	sc := g.scope(f.pkg)
-	for k, n := 0, g.n(0, g.o.MaxServices, "services"); k < n; k++ {
+	g.repeat("services", 0, g.o.MaxServices, func(k int) {
 		name := g.freshName(sc, serviceNames, "service-name", nil)
 		sc.take(name)
 		s := &descriptorpb.ServiceDescriptorProto{Name: proto.String(name)}
@@ -822,7 +820,7 @@ func (g *gen) services(f *fileCtx) {
 			so = &descriptorpb.ServiceOptions{}
 		}
 		s.Options = so
-		for j, nm := 0, g.n(0, 3, "methods"); j < nm; j++ {
+		g.repeat("methods", 0, 3, func(j int) {
 			mn := g.freshName(ssc, methodNames, "method-name", nil)
 			ssc.take(mn)
 			md := &descriptorpb.MethodDescriptorProto{Name: proto.String(mn),
@@ -856,9 +854,9 @@ func (g *gen) services(f *fileCtx) {
 			}
 			md.Options = mo
 			s.Method = append(s.Method, md)
-		}
+		})
 		f.fd.Service = append(f.fd.Service, s)
-	}
+	})
 }
 
 var _ = fmt.Sprintf
